@@ -569,10 +569,37 @@ def main(run):
     hpaths = hollow_defs(run.scratch.sub("plugins"))
     leaf_fns = {nm: hollow_leaf(nm.endswith("_fq")) for nm in hpaths}
     stats["synthetic_definitions"] = sorted(hpaths)
-    for name in list(models) + sorted(hpaths):
-        model = sas.load(hpaths.get(name, name))
+    # a reparameterised compiled model with an intermediate variable (ellipsoid by volume and eccentricity): its
+    # single-particle values at a mesh point are those of the BASE model at the translated parameters
+    extra_models = {}
+    try:
+        from sasmodels.core import reparameterize, build_model, load_model_info
+        from numpy import inf as _inf
+        import os as _os
+        _binfo = load_model_info("ellipsoid")
+        _rinfo = reparameterize(_binfo, [["volume", "Ang^3", 1e5, [0, _inf], "volume", ""], ["eccentricity", "", 1.0, [0, _inf], "volume", ""]],
+                                "Re = cbrt(volume/eccentricity/M_4PI_3)\nradius_polar = eccentricity*Re\nradius_equatorial = Re",
+                                filename=_os.path.join(run.scratch.sub("plugins"), "verif_repar_ellipsoid.py"))
+        extra_models["verif_repar_ellipsoid"] = build_model(_rinfo, dtype="double", platform="dll")
+        _base = sas.load("ellipsoid")
+        _bk = {}
+
+        def _repar_leaf(pfull, mode, q):
+            key = tuple(map(float, q[0]))
+            if key not in _bk:
+                _bk[key] = _base.make_kernel([np.asarray(q[0], "d")])
+            Re = (pfull["volume"] / pfull["eccentricity"] / (4.0 * math.pi / 3.0)) ** (1.0 / 3.0)
+            bp = dict(sld=pfull["sld"], sld_solvent=pfull["sld_solvent"], radius_polar=pfull["eccentricity"] * Re, radius_equatorial=Re)
+            return sas.leaf_eval(_bk[key], bp, {}, mode, len(q[0]), bp)
+        leaf_fns["verif_repar_ellipsoid"] = _repar_leaf
+        stats["synthetic_definitions"] = stats["synthetic_definitions"] + ["verif_repar_ellipsoid (reparameterised, 1-D)"]
+    except Exception as exc:  # noqa
+        run.notes.append("reparameterised ellipsoid not available: %r" % (exc,))
+    only_1d = set(extra_models)
+    for name in list(models) + sorted(hpaths) + sorted(extra_models):
+        model = extra_models[name] if name in extra_models else sas.load(hpaths.get(name, name))
         info = model.info
-        oriented = any(p.type == "orientation" for p in info.parameters.call_parameters)
+        oriented = any(p.type == "orientation" for p in info.parameters.call_parameters) and name not in only_1d
         plan = []
         for cname, cdim, cpars, ccut, cmode in corpus:
             if cname == name:
@@ -580,6 +607,8 @@ def main(run):
         for i in range(ncases):
             dim = "2d" if (oriented and i % 2 == 1) or (not oriented and i % 5 == 4) else "1d"
             plan.append((dim, None, None, None, None))
+        if name in only_1d:
+            plan = [(("1d",) + t[1:]) for t in plan]
         for dim in (["1d", "2d"] if oriented else ["1d"]):
             pdn = info.parameters.pd_2d if dim == "2d" else info.parameters.pd_1d
             if len(pdn) > info.parameters.max_pd:
